@@ -123,7 +123,9 @@ def render(p: Dict[str, Any]) -> str:
         for c in kids[i]:
             emit(c, ind + 1)
         if k == "try":
-            out.append(f"{sp}finally:\n{sp}    pass")
+            # four spellings of a try statement whose BODY holds the children (the third one is an ast.TryStar node)
+            out.append([f"{sp}finally:\n{sp}    pass", f"{sp}except Exception:\n{sp}    pass", f"{sp}except* Exception:\n{sp}    pass",
+                        f"{sp}except (ImportError, ValueError) as _e:\n{sp}    pass\n{sp}else:\n{sp}    pass"][i % 4])
         if k == "while":
             out.append(f"{sp}    break")
 
@@ -547,8 +549,17 @@ def kf_inherited_member_overridden(w: Dict[str, Any]) -> bool:
         and bool(w.get("known_shape")) and w.get("expected") == "variable"
 
 
+def kf_rebound_by_for_or_with(w: Dict[str, Any]) -> bool:
+    """Known finding: a variable assigned a literal and bound again as the target of a `for` loop or of `with ... as` keeps the
+    value and the inferred type of the literal (the builder does not look at those targets).  Matches only the side check's
+    witnesses for exactly these two variables of its source (lit2: for, lit3: with)."""
+    return w.get("what_side") == "__doc__ assignment" and w.get("what") == "rebound variables: inferred type" \
+        and w.get("object") in ("lit2", "lit3") and w.get("got") == "int"
+
+
 def run(ctx: Ctx) -> int:
     ctx.register_matcher("inherited-member-overridden-by-variable", kf_inherited_member_overridden)
+    ctx.register_matcher("literal-type-stale-after-for-or-with", kf_rebound_by_for_or_with)
     for fid, _fn in KNOWN:
         ctx.register_matcher(fid, lambda w, fid=fid: (explain(w) or [None])[0] == fid)
     maxn = 2 if ctx.quick else 3
